@@ -205,8 +205,8 @@ Proof.
   unfold pkgo_cands. rewrite rl_kind, rl_attrs, rl_pos. destruct (n_kind n); try reflexivity.
   - destruct (a_obj (n_attrs n)) as [o|]; [|reflexivity]. destruct (o_pkg o) as [p|]; [|reflexivity].
     destruct (String.eqb p cur); [reflexivity|apply pkgo_obj_cand_rl].
-  - destruct (a_obj (n_attrs n)) as [o|]; [|reflexivity]. destruct (o_pkg o) as [p|]; [|reflexivity].
-    destruct (String.eqb p cur); [apply pkgo_obj_cand_rl|reflexivity].
+  - destruct (a_flag (n_attrs n)); [reflexivity|]. destruct (a_obj (n_attrs n)) as [o|]; [|reflexivity]. destruct (o_pkg o) as [p|]; [|reflexivity].
+    apply pkgo_obj_cand_rl.
 Qed.
 
 Lemma preorder_pruned_rl keep n : (forall m, keep (rl m) = keep m) -> preorder_pruned keep (rl n) = map rl (preorder_pruned keep n).
